@@ -657,8 +657,10 @@ example : (iterTable stdConv ⟨.blankAll, false, 0,
 attributes (the rule sets of the repaired anchor-cell defect) yield one object per data row -/
 example : (iterTable stdConv ⟨.blankAll, false, 0,
       [.ext (.str "file".toList), .range .set 1 true, .col "gone".toList 1 (some .none),
-       .col "id".toList 1 none]⟩ rangeSheet).objs.map (fun o => o.map fun o => o.attrs.map fun a => a.1) =
-    [some [.plain (.str "file".toList), .set ["math".toList], .plain .none, .plain (.int 0)]] := by
+       .col "id".toList 1 none, .col "name".toList 0 none]⟩ rangeSheet).objs.map
+      (fun o => o.map fun o => o.attrs.map fun a => a.1) =
+    [some [.plain (.str "file".toList), .set ["math".toList], .plain .none, .plain (.int 0),
+           .plain (.str "Arnold".toList)]] := by
   decide +kernel
 
 /-- a missing column without default is rejected with `ValueError` (hypothesis of `bind_error`) -/
